@@ -16,7 +16,7 @@ CHECKS = {
         text="Every generated ledger is run through the real calculate() (release build of /repo's working tree) and "
              "each reported leg (rule, quantity, acquisition date; cost/proceeds/gain when no capital events) is compared "
              "with an independent Fraction model of TCGA92 s105(1)/s106A/s104. Quick: ~37k shape-directed ledgers incl. "
-             "the complete window-edge suite (every sale date 2019-04-06..2025-04-05 x offsets 0,1,29,30,31). "
+             "the complete window-edge suite (every sale date 2019-04-06..2025-04-05 x offsets 0,1,29,30,31) and the same suite over a seed-chosen block of four tax years in 1900..2100; thorough: every sale date 1900-04-06..2100-04-05. "
              "Held = held on the executions observed; coverage counters (legs per rule, competing claims, reservations, "
              "splits in window, offsets) are in the evidence and a run that saw too few of them is inconclusive.",
         note="Trusts the Python model's reading of the statute (validated against the repaired tree and by seeded "
